@@ -37,16 +37,35 @@ Open Scope N_scope.
 class GateRig:
     """One real Application for one configuration, instrumented from outside."""
 
-    def __init__(self, cfg):
-        self.cfg = cfg
-        conf = {"auth": {"type": cfg["kind"], "lc_username": str(cfg["lc"]), "uc_username": str(cfg["uc"]),
+    @staticmethod
+    def conf_of(cfg):
+        return {"auth": {"type": cfg["kind"], "lc_username": str(cfg["lc"]), "uc_username": str(cfg["uc"]),
                          "strip_domain": str(cfg["sd"]), "cache_logins": "False", "delay": "0.00001"},
                 "rights": {"type": PLUGIN},
                 "server": {"_internal_server": str(cfg["internal"]), "max_content_length": str(cfg["max_len"]),
                            "script_name": cfg["script_name"]}}
-        self.srv = impl.Server(conf)
-        self.app = app = self.srv.application
+
+    def __init__(self, cfg, app=None, folder=None):
+        """app=None: an in-process Application over a fresh folder (vlib.impl.Server); otherwise instrument the given
+        Application (the one radicale.server.serve() created, see vlib/drivers/c05_socket_driver.py)."""
+        self.cfg = cfg
+        if app is None:
+            self.srv = impl.Server(self.conf_of(cfg))
+            app = self.srv.application
+        else:
+            class _Srv:
+                pass
+            self.srv = _Srv()
+            self.srv.folder, self.srv.configuration, self.srv.close = folder, app.configuration, lambda: None
+        self.app = app
         self.events = plug.STATE["events"]
+        self.environs = []
+        orig_handle = app._handle_request
+
+        def rec_handle(environ):
+            self.environs.append({k: v for k, v in environ.items() if isinstance(v, str)})
+            return orig_handle(environ)
+        app._handle_request = rec_handle
         self.handler_kind = "ok"
         if cfg["kind"] != PLUGIN:
             orig_login = app._auth._login
